@@ -17,7 +17,7 @@ func transPool(repo string, f *Facts) {
 		f.bad("translate chpool: cannot load package: %v", err)
 		return
 	}
-	f.trans.WriteString("\n/-! ## chpool/client.go, chpool/pool.go -/\nsection Pool\nopen Model.Pool (St Cfg Res lookup erase puddleValue puddleDestroy puddleRelease puddleReleaseUnused puddleAcquireAllIdle)\n")
+	f.trans.WriteString("\n/-! ## chpool/client.go, chpool/pool.go -/\nnamespace Pool\nopen Model.Pool (St Cfg Res lookup erase puddleValue puddleDestroy puddleRelease puddleReleaseUnused puddleAcquireAllIdle)\n")
 	defer f.trans.WriteString("\nend Pool\n")
 
 	if fd := p.funcDecl("Client", "Release"); fd != nil && fd.Body != nil {
